@@ -164,6 +164,17 @@ func init() {
 						}
 					}
 				}
+				// every channel count up to 1030 on a few small capacities (one type)
+				if ty.ID == dyn.Int8 {
+					for C := 1; C <= 1030; C++ {
+						for _, K := range []int{1, 2, 3, 7, 12} {
+							if C > 130 && K > 7 {
+								continue
+							}
+							cases = append(cases, c13Case{Type: ty.Name, C: C, L: K / 2, K: K})
+						}
+					}
+				}
 				// more channels than fit in 8 or 16 bits (a few shapes: the buffers are large)
 				if ty.ID == dyn.Int8 || ty.ID == dyn.Float64 || ty.ID == dyn.MyInt16ID() {
 					for _, C := range []int{65535, 65536, 65538, 1<<17 + 1} {
